@@ -38,34 +38,50 @@ def run(rep, tier, seed):
 
 
 def smoke(rep):
-    """Real multiprocessing, a handful of scenarios, generous wall-clock bounds (never decides the quick tier)."""
+    """Real multiprocessing (subprocess with the parent-side hooks on), generous wall-clock bounds, thorough tier only."""
+    import json
     import os
-    import time
-    from playback.studio.equalizer import Equalizer, CompareExecutionConfig, ComparatorResult, EqualityStatus
-    import multiprocessing
-
-    def player(rid):
-        if rid.endswith('hang'):
-            time.sleep(60)
-        if rid.endswith('exit'):
-            os._exit(3)
-        return eqbind.FakePlayback(rid, 1, 'equal')
-    ids = ['Cat/a', 'Cat/b-hang', 'Cat/c', 'Cat/d-exit', 'Cat/e', 'Cat/f-hang']
-    eq = Equalizer(iter(ids), player, lambda o: o, lambda a, b: ComparatorResult(EqualityStatus.Equal),
-                   compare_execution_config=CompareExecutionConfig(compare_in_dedicated_process=True,
-                                                                   compare_process_recycle_rate=2, compare_process_timeout=1))
-    t0 = time.time()
-    out = [c.comparator_status.equality_status.name for c in eq.run_comparison()]
-    wall = time.time() - t0
-    time.sleep(2)
-    left = [p for p in multiprocessing.active_children() if p.is_alive()]
-    rep.extra['real_process_smoke'] = {'verdicts': out, 'wall_s': round(wall, 1), 'live_children_after_2s': len(left)}
-    if len(out) != len(ids) or wall > 60:
-        rep.violation({'summary': 'real-process smoke: %d comparisons in %.1fs' % (len(out), wall), 'signature': None})
-    if left:
-        rep.violation({'summary': 'real-process smoke: %d worker processes still alive 2 s after the run' % len(left), 'signature': None})
-        for p in left:
-            p.kill()
+    import subprocess
+    import sys
+    import tempfile
+    from .. import suitetrace
+    fd, path = tempfile.mkstemp(prefix='pbverif-eqsmoke-', suffix='.ndjson')
+    os.close(fd)
+    os.remove(path)
+    env = dict(os.environ)
+    env['PLAYBACK_VERIF_TRACE'] = path
+    env['PYTHONPATH'] = os.pathsep.join([p for p in sys.path if p])
+    p = subprocess.run([sys.executable, '-m', 'pbverif.eqsmoke'], env=env, stdout=subprocess.PIPE, stderr=subprocess.PIPE,
+                       universal_newlines=True, timeout=900,
+                       cwd=os.path.dirname(os.path.dirname(os.path.dirname(os.path.abspath(__file__)))))
+    events = []
+    if os.path.exists(path):
+        with open(path) as f:
+            for line in f:
+                try:
+                    events.append(json.loads(line))
+                except ValueError:
+                    pass
+        os.remove(path)
+    try:
+        res = json.loads(p.stdout.strip().splitlines()[-1])
+    except Exception:
+        raise RuntimeError('equalizer smoke driver failed: %s %s' % (p.stdout[-300:], p.stderr[-600:]))
+    rep.extra['real_process_smoke'] = res
+    for r in res:
+        n = len(r['ids']) if r['stop'] is None else r['stop']
+        rep.evaluations += 1
+        if len(r['out']) != n or r['wall_s'] > 120:
+            rep.violation({'summary': 'real processes: %d comparisons (expected %d) in %.1fs for %s' % (len(r['out']), n, r['wall_s'], r['ids']),
+                           'signature': None})
+        if r['left_alive']:
+            rep.violation({'summary': 'real processes: worker(s) %s still alive 1.5 s after the run over %s' % (r['left_alive'], r['ids']),
+                           'signature': None})
+        for rid, status, att in r['out']:
+            bad_status = (rid.endswith(('hang', 'stubborn', 'exit')) != (status == 'EqualizerFailure'))
+            if bad_status or (att is not None and att != rid):
+                rep.violation({'summary': 'real processes: %s -> %s with replay of %s' % (rid, status, att), 'signature': None})
+    suitetrace.validate(rep, 'real-process smoke scenarios', 'EqualizerTrace', suitetrace.equalizer_traces(events))
 
 
 def replay(rep, body):
